@@ -86,6 +86,9 @@ def run(ctx):
     for row in sorted(z.cases, key=lambda r: json.dumps(r, sort_keys=True)):
         if row["code"] in (4, 5):
             vecs.append({"code": row["code"], "bcs": row["bcs"], "ccs": row["ccs"], "level": 0, "conc": 1, "legacy": False, "size": row["size"], "_one": True})
+    # content sizes around 2^31, 2^32 and 2^63 (every byte of the 8-byte field matters)
+    for k, size in enumerate([(1 << 31) - 1, 1 << 31, (1 << 32) + 5, (1 << 40) + (1 << 31) + 7, 1 << 63, (1 << 64) - 1]):
+        vecs.append({"code": 4, "bcs": k % 2 == 0, "ccs": True, "level": 0, "conc": 1, "legacy": False, "size": size, "_one": True})
     probes = []
     for o in vecs:
         B = fl.BLOCK[o["code"]]
